@@ -115,7 +115,7 @@ pub fn eval_field(doc: &mut Document, field: &str) -> String {
             // the concrete filter type is not observable through `dyn CryptFilter`; names only
             Ok(format!("{}{}", m.len(), m.keys().map(|k| format!(":{}", hex_tok(k))).collect::<String>()))
         }),
-        "iter" => run_field(|| { let v: Vec<ObjectId> = doc.page_iter().collect(); Ok(format!("{},{}", v.len(), ids_str(&v))) }),
+        "iter" => run_field(|| { let v: Vec<ObjectId> = doc.page_iter().collect(); Ok(format!("{},{},{}", v.len(), v.capacity(), ids_str(&v))) }),
         "pages" => run_field(|| {
             let m = doc.get_pages();
             let ok = m.keys().enumerate().all(|(i, k)| *k as usize == i + 1);
@@ -504,12 +504,15 @@ fn has_cycle<'a>(start: &'a Dictionary, succ: &dyn Fn(&'a Dictionary) -> Vec<&'a
     }
     false
 }
-/// number of node visits the walkers make, up to `budget` (explosive DAGs are hazards too)
+/// number of node visits the walkers make, up to `budget` (explosive DAGs are hazards too); the `Next` loop
+/// stops at a repeated `Next` reference like the code's `seen_next`
 fn outline_steps<'a>(doc: &'a Document, mut n: &'a Dictionary, budget: &mut i64, depth: usize) {
+    let mut seen: HashSet<ObjectId> = HashSet::new();
     loop {
         *budget -= 1; if *budget < 0 || depth > 400 { *budget = -1; return; }
         let (next, first) = outline_succ(doc, n);
         if let Some(f) = first { outline_steps(doc, f, budget, depth + 1); if *budget < 0 { return; } }
+        if let Ok(Object::Reference(id)) = n.get(b"Next") { if !seen.insert(*id) { return; } }
         match next { Some(m) => n = m, None => return }
     }
 }
@@ -520,7 +523,8 @@ fn dest_steps<'a>(doc: &'a Document, n: &'a Dictionary, budget: &mut i64, depth:
 
 #[derive(Default, Debug, Clone)]
 struct Hazard { next_cycle: bool, first_cycle: bool, kids_cycle: bool, explosive: bool }
-impl Hazard { fn any(&self) -> bool { self.next_cycle || self.first_cycle || self.kids_cycle || self.explosive } }
+/// `next_cycle` is no hazard any more (the `Next` loop has a seen-set since 79a3229); it is kept for the counters
+impl Hazard { fn any(&self) -> bool { self.first_cycle || self.kids_cycle || self.explosive } }
 
 /// hazards of the outline / destination walk from the catalog, and of `get_named_destinations` on each target
 fn analyse(doc: &Document, targets: &[ObjectId]) -> Hazard {
@@ -533,16 +537,20 @@ fn analyse(doc: &Document, targets: &[ObjectId]) -> Hazard {
         else { let mut b = 3000i64; dest_steps(doc, t, &mut b, 0); if b < 0 { h.explosive = true; } }
     }
     if let Some(s) = start {
-        if has_cycle(s, &|n| outline_succ(doc, n).0.into_iter().collect()) { h.next_cycle = true; }
-        // a Next-cycle anywhere reachable (also below First links) counts as next-cycle
-        else if has_cycle(s, &|n| { let (a, b) = outline_succ(doc, n); a.into_iter().chain(b).collect() }) {
-            // distinguish: is some cycle made of Next links only?
-            let mut seen = HashSet::new(); let mut todo = vec![s]; let mut next_only = false;
-            while let Some(n) = todo.pop() { if !seen.insert(addr(n)) { continue; }
-                if has_cycle(n, &|m| outline_succ(doc, m).0.into_iter().collect()) { next_only = true; break; }
-                let (a, b) = outline_succ(doc, n); todo.extend(a); todo.extend(b); }
-            if next_only { h.next_cycle = true; } else { h.first_cycle = true; }
-        } else { let mut b = 3000i64; outline_steps(doc, s, &mut b, 0); if b < 0 { h.explosive = true; } }
+        // nodes reachable over Next / First links
+        let mut nodes: Vec<&Dictionary> = vec![]; let mut seen = HashSet::new(); let mut todo = vec![s];
+        while let Some(n) = todo.pop() { if !seen.insert(addr(n)) || nodes.len() > 5000 { continue; } nodes.push(n); let (a, b) = outline_succ(doc, n); todo.extend(a); todo.extend(b); }
+        let reach = |from: &Dictionary, to: &Dictionary| -> bool {
+            let mut seen = HashSet::new(); let mut todo = vec![from];
+            while let Some(n) = todo.pop() { if addr(n) == addr(to) { return true; } if !seen.insert(addr(n)) { continue; } let (a, b) = outline_succ(doc, n); todo.extend(a); todo.extend(b); }
+            false
+        };
+        // a cycle through a First link = unbounded recursion; a cycle of Next links only = stopped by seen_next
+        for n in &nodes { if let (_, Some(f)) = outline_succ(doc, n) { if reach(f, n) { h.first_cycle = true; break; } } }
+        if !h.first_cycle {
+            if nodes.iter().any(|n| has_cycle(n, &|m| outline_succ(doc, m).0.into_iter().collect())) { h.next_cycle = true; }
+            let mut b = 3000i64; outline_steps(doc, s, &mut b, 0); if b < 0 { h.explosive = true; }
+        }
     }
     h
 }
@@ -656,7 +664,7 @@ pub fn run(c: &mut Ctx) {
 fonts with every Encoding branch, image XObjects, Annots, outlines with Dest/A/named destinations, name trees, Encrypt/CF) with 0-12 typed-chaos \
 mutations (a key the queries read re-bound to a value of a random kind or to a reference, possibly forming cycles); every query runs on the real \
 Document in the isolated worker on 3-5 target ids; non-trivial = every case (distinct by request text); unguarded walkers are excluded from \
-documents in which the independent graph analysis finds Next/First/Kids cycles (those go to the dedicated known-finding streams)".into();
+documents in which the independent graph analysis finds First/Kids cycles (those go to the dedicated known-finding stream); Next cycles are walked (seen_next)".into();
     let _ = guard(|| ());
     // ---------------- well-formed documents
     let mut batch = vec![]; let mut docs = vec![];
@@ -681,6 +689,7 @@ documents in which the independent graph analysis finds Next/First/Kids cycles (
         chaos(&mut r, &mut doc, n_mut, c);
         let targets = pick_targets(&mut r, &doc, &leaves);
         let hz = analyse(&doc, &targets);
+        if hz.next_cycle { c.count("chaos.next_cycle_walked"); }
         let mode = if hz.any() { c.count("chaos.hazard_nowalk"); "nowalk" } else { "all" };
         let req = request(mode, &targets, &doc);
         c.nontrivial(&req);
